@@ -806,6 +806,7 @@ func init() {
 }
 
 func progsC12(t *testing.T) {
+	progsC12Shared(t)
 	progsSlow(t, "C12")
 	typedProgs(t, "C12")
 	for _, k := range thresholds(1, common.Pick(300, 2100)) {
@@ -1313,6 +1314,58 @@ func progsC13Idle(t *testing.T) {
 						end = "pacer-stays"
 					}
 					runProg(t, "C13", &caseT{Stage: "prog/throttle-idle-burst", N: ops, Cap: cp, Delay: q, Mode: mode, End: end, Tick: int64(200 * time.Millisecond)})
+				}
+			}
+		}
+	}
+}
+
+// ---------------------------------------------------------------- C12: an input with more than one reader
+
+func init() {
+	// the same channel is read by two copiers (passed twice to one Join, or to two Joins): whichever copier gets an
+	// element, the outputs together hold exactly what was sent - never a value nobody sent (elements are non-zero)
+	progs["join-shared-input"] = func(c *caseT) string {
+		ctx, cancel := context.WithCancel(context.Background())
+		defer cancel()
+		for rep := 0; rep < 200; rep++ {
+			ch := make(chan int, c.Cap)
+			n := c.N
+			feed := func() {
+				for i := 1; i <= n; i++ {
+					ch <- rep*100000 + i
+				}
+				close(ch)
+			}
+			if c.Mode == "prefilled" && n <= c.Cap {
+				feed()
+			} else {
+				go feed()
+			}
+			var got []int
+			if c.End == "two-joins" {
+				a, b := pipe.Join(ctx, ch), pipe.Join(ctx, ch, pipe.Seq[int]())
+				done := make(chan []int)
+				go func() { done <- pipe.ToSeq(b) }()
+				got = append(pipe.ToSeq(a), <-done...)
+			} else {
+				got = pipe.ToSeq(pipe.Join(ctx, ch, ch))
+			}
+			slices.Sort(got)
+			if len(got) != n || (n > 0 && (got[0] != rep*100000+1 || got[n-1] != rep*100000+n)) {
+				return fmt.Sprintf("round %d: %d elements sent on a channel of capacity %d read by two copiers (%s), the outputs hold %d elements: %v", rep, n, c.Cap, c.End, len(got), head(got))
+			}
+		}
+		return ""
+	}
+}
+
+func progsC12Shared(t *testing.T) {
+	for _, cp := range []int{0, 1, 8, 64} {
+		for _, n := range []int{1, 5, 40, 64, 200} {
+			for _, mode := range []string{"prefilled", "live"} {
+				for _, end := range []string{"same-join", "two-joins"} {
+					runProg(t, "C12", &caseT{Stage: "prog/join-shared-input", N: n, Cap: cp, Mode: mode, End: end})
 				}
 			}
 		}
